@@ -120,6 +120,9 @@ def _named_local(view, op, depth=8):
             return "?"
         if d[1] == "term":
             nm = ir.callee_name(d[2]["fn"]) or "call"
+            if nm.startswith("core::convert::num::<impl core::convert::From<") and len(d[2]["args"]) == 1:
+                op = d[2]["args"][0]       # lossless integer conversion: name of what is converted
+                continue
             return nm.split("::")[-1] + "()"
         rv = d[2]["rv"]
         if rv["r"] == "use":
